@@ -477,6 +477,54 @@ def gen_cases(rnd, count):
                 cases.append({'kind': 'ddb', 'line': line, 'expect': '',
                               'sig': sig('ddb-split', t0, cut, zlib.crc32(line.encode())),
                               'nt': True, 'tclass': tclass, 'bclass': bclass, 'tick': 0})
+    # Histories of RELATED credentials: consecutive calls in one process on one
+    # day in which one field at a time becomes an extension, a truncation or a
+    # one-character variant of what the previous (or the first) call used -
+    # secret "abc" then "abcdef" then "abc" again, region "us-east-1" then
+    # "us-east-10", key id likewise - across all four variants.  Each result
+    # must be the signature for ITS OWN arguments.
+    def relative(x):
+        r = rnd.random()
+        if r < 0.35 or not x:
+            return x + ''.join(rnd.choice('abcXYZ019') for _ in range(rnd.choice([1, 1, 2, 7, 24])))
+        if r < 0.6:
+            return x[:-rnd.randrange(1, min(4, len(x)) + 1)] or 'q'
+        if r < 0.8:
+            return x[:-1] + ('b' if x[-1] != 'b' else 'c')
+        return ('b' if x[0] != 'b' else 'c') + x[1:]
+
+    for _ in range(max(2, count // 100)):
+        t0, tclass = rand_time(rnd)
+        base = {'secret': ''.join(rnd.choice(PRINTABLE) for _ in range(rnd.choice([1, 8, 40, 40, 41]))),
+                'key_id': rand_unres(rnd), 'region': rnd.choice(['us-east-1', 'eu-west-1', rand_unres(rnd)]),
+                'svc': rnd.choice(['ec2', 'sns', 's3', rand_unres(rnd)])}
+        cur = dict(base)
+        for step in range(rnd.randrange(6, 12)):
+            if step:
+                fld = rnd.choice(['secret', 'secret', 'secret', 'key_id', 'region', 'svc'])
+                src = rnd.choice([base, cur, cur])
+                nxt = dict(cur)
+                nxt[fld] = rnd.choice([relative(src[fld]), relative(src[fld]), base[fld]])
+                cur = nxt
+            kind = rnd.choice(['svc', 'svc', 'ddb', 's3hdr', 's3qs'])
+            f = {'t0': t0, 'tick': 0, 'key_id': cur['key_id'], 'secret': cur['secret'], 'region': cur['region']}
+            bclass = '-'
+            if kind in ('s3hdr', 's3qs'):
+                f['method'] = rnd.choice(METHODS)
+                f['bucket'] = 'bucket'
+                f['path'] = '/obj'
+            elif kind == 'svc':
+                f['svc'] = cur['svc']
+            else:
+                f['op'] = 'GetItem'
+            if kind == 's3qs':
+                f['expiry'] = 3600
+            else:
+                f['body'], f['nlen'], bclass = rand_body(rnd)
+            line = make_line(kind, f)
+            cases.append({'kind': kind, 'line': line, 'expect': '',
+                          'sig': sig('related', kind, t0, step, zlib.crc32(line.encode())),
+                          'nt': True, 'tclass': tclass, 'bclass': bclass, 'tick': 0})
     return cases
 
 
